@@ -313,7 +313,11 @@ pub fn classify(c: &Case, want: &[u8], got: &[u8]) -> Vec<(String, String)> {
                     }
                 }
                 None => {
-                    if c.from_message && x.rdata.iter().any(|b| b & 0xc0 == 0xc0) && want_rd.iter().all(|w| w.len() > x.rdata.len()) {
+                    if c.from_message
+                        && x.rdata.iter().any(|b| b & 0xc0 == 0xc0)
+                        && !c.rdatas.iter().any(|r| canon::rdata_plain(r).eq_ignore_ascii_case(&x.rdata))
+                    {
+                        // not even the uncompressed RDATA of an input: the compressed octets of the message
                         "compression-pointer-kept"
                     } else if want_rd.iter().any(|w| w.len() != x.rdata.len()) && !want_rd.iter().any(|w| w.len() == x.rdata.len()) {
                         "length-differs"
@@ -510,13 +514,16 @@ pub fn run_tbs_with_records(c: &Case, recs: &[Record], l: &mut Local) -> Verdict
             l.outcome(if g.is_ok() { "obs:wildcard-owner-labels-count-star:accepted" } else { "obs:wildcard-owner-labels-count-star:rejected" });
             Verdict::NoData
         }
-        (Ok(w), Err(_)) if w.len() > 65535 => {
-            // the signed data itself is longer than 65,535 octets: hickory builds it in a DNS message
-            // encoder and gives up; reported to the lead, not judged
-            l.outcome("obs:large:signed-data-above-65535-octets-rejected");
-            l.outcome_sample("obs:large:signed-data-above-65535-octets-rejected:sample", || {
-                json!({"type": c.tname, "records": c.rdatas.len(), "owner_wire_len": vref::name::wire_len(&c.owner), "reference_len": w.len()})
-            });
+        (Ok(w), Err(e)) if w.len() > 65535 => {
+            // fixed in 263b51f: the signed data used to be assembled in a message encoder (65,535 octets)
+            if c.observe_only {
+                l.outcome("obs:untriaged-type:tbs-error:signed-data-above-65535-octets");
+            } else {
+                l.violation("tbs-error:signed-data-above-65535-octets", &format!("reference signed data has {} octets, hickory fails: {e}", w.len()), || {
+                    json!({"family": "large", "type": c.tname, "records": c.rdatas.len(), "owner_wire_len": vref::name::wire_len(&c.owner),
+                        "first_rdata_len": canon::rdata_plain(&c.rdatas[0]).len(), "reference_len": w.len()})
+                });
+            }
             Verdict::NoData
         }
         (Ok(_), Err(e)) => {
@@ -545,6 +552,9 @@ pub fn run_tbs_with_records(c: &Case, recs: &[Record], l: &mut Local) -> Verdict
                 }
                 if w.len() > 60000 {
                     l.outcome("tbs:equal:signed-data-above-60000-octets");
+                }
+                if w.len() > 65535 {
+                    l.outcome("tbs:equal:signed-data-above-65535-octets");
                 }
                 if !c.foreign.is_empty() {
                     l.outcome("tbs:equal:foreign-records-ignored");
